@@ -25,12 +25,16 @@ import (
 func init() {
 	hx.Register(&hx.Prop{
 		ID: "C09",
-		Rule: "exhaustive: every set of ≤2 (thorough: ≤3) templates out of a universe of 10 (root, literal/templated siblings, shared prefixes, 0–2 variables, " +
-			"mid-segment variable, trailing-slash template) × 3 method layouts × 6 server configurations (none, relative, absolute with trailing slash, host+port variables, " +
-			"scheme variable + second server, relative with variable) × request forms per configuration (right/wrong base, host, scheme, enum value inside/outside, absolute and " +
+		Rule: "exhaustive: every set of ≤2 (thorough: ≤3, an eighth of the 3-sets' cases) templates out of a universe of 11 (root, literal/templated siblings, shared prefixes, 0–2 variables, " +
+			"mid-segment variable, trailing-slash template, /a next to /a/) × 3 method layouts × 12 server configurations (none, relative, absolute with trailing slash, host+port variables, " +
+			"scheme variable + second server, relative with variable, two relative servers with different base paths, three servers with one base a path prefix of another, " +
+			"path-item level servers on the first / on the last template with one or two document-level servers, path-item level absolute server with variable and no document-level server) " +
+			"× request forms per configuration (through each declared server, wrong base, host, scheme, enum value inside/outside, absolute and " +
 			"server-style URL) × 20 paths (filled templates and near-misses: empty binding, //, trailing slash, missing/extra segment, empty path) × methods GET/POST/unknown, for both routers " +
-			"(quick tier: a deterministic sixth of it); plus a seeded random stream of documents (1–5 templates from a segment grammar, 0–3 variables, up to 9 methods, random servers) with " +
-			"requests built from the document's own templates and mutations of them. Non-trivial = the model reports a branch other than the bare not-found of a server-less document.",
+			"(quick tier: a deterministic sixth of it); plus a seeded random stream of documents (1–5 templates from a segment grammar, 0–3 variables, up to 9 methods, sometimes a template and its " +
+			"trailing-slash twin; 0–3 document-level servers with different base paths from six shapes, path-item level servers on one or two path items in 22% of the documents) with " +
+			"requests built from the document's own templates and mutations of them, sent through the forms of every declared server. Observed per case: error kind, route template, method, " +
+			"operation identity, path parameters and the identity of Route.Server. Non-trivial = the model reports a branch other than the bare not-found of a server-less document.",
 		Exhaustive: true,
 		Gen:        genC09,
 		Run:        runC09,
@@ -486,7 +490,7 @@ func genC09(ctx *hx.Ctx, emit func(hx.Case)) {
 								if (si+li+ci+fi+pi+mi)%6 != 0 {
 									continue
 								}
-							} else if len(set) == 3 && (si+li+ci+fi+pi+mi)%4 != 0 {
+							} else if len(set) == 3 && (si+li+ci+fi+pi+mi)%8 != 0 {
 								continue
 							}
 							for _, router := range []string{"legacy", "gorilla"} {
@@ -501,7 +505,7 @@ func genC09(ctx *hx.Ctx, emit func(hx.Case)) {
 	// ---- random stream
 	N := 3000
 	if ctx.Thorough() {
-		N = 90000
+		N = 45000
 	}
 	r := ctx.Rng
 	for i := 0; i < N; i++ {
